@@ -127,22 +127,34 @@ fn structured64(sw: &Sweep, quick: bool) -> Vec<Value> {
         sw.count.fetch_add(n, Ordering::Relaxed);
     });
     parts.push(json!({"part": format!("a<<s, !(a<<s), (a<<s)-1 for a<2^{}, all 64 shifts", abits), "count": sw.count.load(Ordering::Relaxed) - c0}));
-    // at most 3 bits set / cleared
+    // at most 4 (thorough: 5) bits set / cleared
     let c0 = sw.count.load(Ordering::Relaxed);
-    (0u32..64).into_par_iter().for_each(|i| {
+    let five = !quick;
+    (0u32..64 * 64).into_par_iter().for_each(|ij| {
+        let (i, j) = (ij / 64, ij % 64);
         let mut n = 0;
-        'outer: for j in 0..64u32 {
-            for k in 0..64u32 {
-                let v = (1u64 << i) | (1u64 << j) | (1u64 << k);
-                if sw.probe64(v) | sw.probe64(!v) {
-                    break 'outer;
+        'outer: for k in 0..64u32 {
+            for l in 0..64u32 {
+                let v4 = (1u64 << i) | (1u64 << j) | (1u64 << k) | (1u64 << l);
+                if five {
+                    for p in 0..64u32 {
+                        let v = v4 | (1u64 << p);
+                        if sw.probe64(v) | sw.probe64(!v) {
+                            break 'outer;
+                        }
+                        n += 2;
+                    }
+                } else {
+                    if sw.probe64(v4) | sw.probe64(!v4) {
+                        break 'outer;
+                    }
+                    n += 2;
                 }
-                n += 2;
             }
         }
         sw.count.fetch_add(n, Ordering::Relaxed);
     });
-    parts.push(json!({"part": "all values with at most 3 bits set or at most 3 bits cleared", "count": sw.count.load(Ordering::Relaxed) - c0}));
+    parts.push(json!({"part": format!("all values with at most {0} bits set or at most {0} bits cleared", if five { 5 } else { 4 }), "count": sw.count.load(Ordering::Relaxed) - c0}));
     // carry chains: 2^i +- 2^j +- small
     let c0 = sw.count.load(Ordering::Relaxed);
     (0u32..64).into_par_iter().for_each(|i| {
@@ -202,7 +214,7 @@ pub fn run(ctx: &Ctx) -> i32 {
     let coverage = json!({
         "evaluations": n32 + n64,
         "distinct_nontrivial": n32,
-        "rule": "32-bit pair: every one of the 2^32 arguments, both compositions (exhaustive; each value is a distinct case). 64-bit pair: complete structured sub-domains (consecutive blocks, a<<s, <=3 bits set/cleared, carry chains, orbits), both compositions; distinct_nontrivial counts only the 32-bit values, which are distinct by construction",
+        "rule": "32-bit pair: every one of the 2^32 arguments, both compositions (exhaustive; each value is a distinct case). 64-bit pair: complete structured sub-domains (consecutive blocks, a<<s, <=4 (5) bits set/cleared, carry chains, orbits), both compositions; distinct_nontrivial counts only the 32-bit values, which are distinct by construction",
         "samples": [{"u32": "0x00000000"}, {"u32": "0xffffffff"}, {"u64": "0x0000000100000000"}, {"u64": "0xfffffffffffffffe"}, {"u64_pattern": "(1<<63)-(1<<21)+5"}],
         "exhaustive": true,
         "exhaustive_scope": "the 32-bit pair only; the 64-bit domain is covered on the listed sub-domains, not completely",
